@@ -11,6 +11,8 @@ def seeds():
         det = m["detected_by_check"]
         note = m.get("detection_note", "")
         det_txt = "yes" if det == "yes" else "after strengthening: " + note.split(";")[-1].strip() if det == "after-fix" else det
+        if m.get("status") == "neutralised":
+            det_txt = "was detected; no longer a fault since repo fix 4482c7b (superseded by C20-7)"
         out.append("| %s | %s | %s (%s) | %s | %s |" % (
             os.path.basename(d), m["property"], m.get("title", "").replace("|", "/"), files,
             (m.get("needs", "")[:160] + ("…" if len(m.get("needs", "")) > 160 else "")).replace("|", "/").replace("\n", " "),
